@@ -1,11 +1,12 @@
 package main
 
 import (
-	"sort"
-	"regexp"
 	"fmt"
 	"go/ast"
+	"go/token"
 	"go/types"
+	"regexp"
+	"sort"
 	"strings"
 )
 
@@ -116,7 +117,9 @@ func ruleFrmChecks(c *Ctx, r *R) {
 	m := newLenMachine(c, "v")
 	paths := m.in.ExecFunc(fd, canonParams(fd, "v", "ft", "xArgs", "xRets"))
 	pos := c.Pos(fd)
-	isInvoke := func(e Effect) bool { return e.Kind == "call" && e.Value != nil && strings.HasPrefix(e.Value.Name, "fieldcall.Value") }
+	isInvoke := func(e Effect) bool {
+		return e.Kind == "call" && e.Value != nil && strings.HasPrefix(e.Value.Name, "fieldcall.Value")
+	}
 	var argPanic, invoked int
 	fewPanic, manyTrim, exact := false, false, false
 	for _, p := range paths {
@@ -421,6 +424,49 @@ func ruleFrmMethod(c *Ctx, r *R) {
 		st := o.Clone()
 		st.Done, st.Ret, st.Eff, st.X = "", nil, nil, nil
 		res := m.in.ExecLit(fl, st, map[string]*T{fl.Type.Params.List[0].Names[0].Name: tVar(nil, "v")})
+		// a bound method value outlives a redefinition of its method (the method table entry is
+		// rewritten in place): the closure refuses to run a body whose parameter list is no longer
+		// the one it was bound and its arguments were counted for
+		var normal []*State
+		for _, p := range res {
+			if p.Done != "panic" {
+				normal = append(normal, p)
+			}
+		}
+		// (the interpreter has no notion of time: f.Args read at bind time and at call time are
+		// the same term to it, so the guard is recognised in the syntax) a terminating
+		// `if <f.Args ..> != <captured> || f.Variadic != <captured> { panic }` before anything else
+		guarded := false
+		if len(fl.Body.List) > 0 {
+			if ifs, ok := fl.Body.List[0].(*ast.IfStmt); ok && ifs.Init == nil && ifs.Else == nil && terminating(ifs.Body) {
+				argsCmp, varCmp := false, false
+				for _, dj := range disjuncts(ifs.Cond) {
+					be, ok := unparen(dj).(*ast.BinaryExpr)
+					if !ok || be.Op != token.NEQ {
+						continue
+					}
+					l, rr := nosp(c.Src(be.X)), nosp(c.Src(be.Y))
+					captured := func(e ast.Expr) bool {
+						id, ok := unparen(e).(*ast.Ident)
+						if !ok {
+							return false
+						}
+						o := c.Obj(id)
+						return o != nil && (o.Pos() < fl.Pos() || o.Pos() > fl.End())
+					}
+					if strings.Contains(l, "f.Args") && captured(be.Y) || strings.Contains(rr, "f.Args") && captured(be.X) {
+						argsCmp = true
+					}
+					if l == "f.Variadic" && captured(be.Y) || rr == "f.Variadic" && captured(be.X) {
+						varCmp = true
+					}
+				}
+				guarded = argsCmp && varCmp
+			}
+		}
+		r.check(guarded, "stale signature "+cs, c.Pos(fl), "the closure panics (incorrect args) when the method's parameter list changed since binding",
+			"the bound-method closure calls the method's current body with the argument count frozen at bind time: after `cb := obj.scale` (two parameters) and a redefinition `func (t *T) scale(v int)`, cb(2, 3) runs the new body on a misaligned frame (receiver = 2) and returns the receiver, without any error")
+		res = normal
 		if len(res) != 1 {
 			r.undecided("closure "+cs, pos, "closure is not straight-line")
 			continue
